@@ -52,6 +52,8 @@ def models(tier):
     L.append(linre.oscillating_spec("two"))
     # correlated measurement errors: one measurement shock enters both measurement equations
     L.append(linre.shared_measurement_shock_spec())
+    # an observable reading a lag that the transition block itself never needs
+    L.append(deep_measurement_lag_model())
     if tier != "quick":
         L += [
             mk(3, (1, 1, 1), (0, 1, 0), -1, "saddle", meas="one"),
@@ -61,6 +63,14 @@ def models(tier):
             mk(2, (1, 1), (0, 1), -1, "saddle", meas="two", log=True),
         ]
     return L
+
+
+def deep_measurement_lag_model():
+    """c is a static function of the state x (no lag of c in the transition block); the observable reads c[-1]"""
+    S = linre.LinSpec
+    x = dict(terms=[(0, -1, 0.7)], const=0.3, shock=True)
+    c = dict(terms=[(0, 0, 0.5)], const=0.1, shock=True)
+    return S(2, [x, c], [dict(terms=[(1, -1, 1.0)], const=0.2, shock=True), dict(terms=[(0, 0, 1.0)], const=0.0, shock=True)], False, "meas_reads_deeper_lag")
 
 
 def unit_root_models(tier="quick"):
@@ -480,6 +490,18 @@ def shard(item, res, ctx):
     check_config(spec, m, N, setting, item["dev"], res, ctx)
     check_variants(spec, m, N, setting, item["dev"], res, ctx)
     check_requested_outputs(spec, m, N, setting, item["dev"], res, ctx)
+    if item["setting"] == 0 and N == 3:
+        # a HISTORY on the solved object: other stds are assigned WITHOUT solving again (the usual likelihood loop over
+        # stds), then the object is filtered again: everything belongs to the stds in force now
+        nxt = std_settings(spec, N, ctx.seed)[1]
+        m.assign(**nxt[1])
+        res.count("std_reassigned_on_solved_object")
+        ny = len(spec.meas)
+        full = np.ones((ny, N), dtype=bool)
+        gap = full.copy()
+        gap[0, 1] = False
+        for mask in (full, gap):
+            check_config(spec, m, N, nxt, item["dev"], res, ctx, only_mask=mask)
 
 
 def run(ctx, total, info):
@@ -499,7 +521,8 @@ def run(ctx, total, info):
                       "unit_root_cases": (total.counters.get("unit_root_cases", 0), 500),
                       "variant_runs": (total.counters.get("variant_runs", 0), 400),
                       "requested_output_runs": (total.counters.get("requested_output_runs", 0), 1000),
-                      "log_named_items_compared": (total.counters.get("log_named_items_compared", 0), 5000)}
+                      "log_named_items_compared": (total.counters.get("log_named_items_compared", 0), 5000),
+                      "std_reassigned_on_solved_object": (total.counters.get("std_reassigned_on_solved_object", 0), 20)}
     # the moments the implementation reports (finite cells) are pinned: none of these classes may disappear
     c = total.counters
     for key in ("predict_med_v", "predict_med_o", "predict_med_e", "predict_med_w", "update_med_v", "update_med_o", "update_med_e",
